@@ -139,6 +139,19 @@ func allHistories() []history {
 			use(pkg, "f2", ref(pkg, "b/fmt", "V"), ref(pkg, "d/more", "V"), ref(pkg, "a/fmt", "V"))
 			pkg.ForceImport("c/util")
 		}},
+		{"forced-imports", func(b *gx.Build) {
+			// several blank imports next to named ones, made in three different ways, in two files
+			pkg := b.Pkg
+			pkg.ForceImport("d/more")
+			pkg.ForceImport("a/fmt")
+			pkg.Import("c/util").MarkForceUsed(pkg)
+			use(pkg, "f1", ref(pkg, "b/fmt", "V"))
+			pkg.Import("x/one") // imported, never referenced
+			pkg.SetCurFile("b.go", true)
+			pkg.ForceImport("b/fmt")
+			pkg.ForceImport("c/util")
+			use(pkg, "f2", ref(pkg, "a/fmt", "V"), ref(pkg, "d/more", "V"))
+		}},
 		{"xgo-deps-in-exported-signatures", func(b *gx.Build) {
 			pkg := b.Pkg
 			t1 := ref(pkg, "x/one", "T").Type()
